@@ -755,6 +755,11 @@ func buildDocPool(cfg Config) (*docPool, error) {
 			p.docs = append(p.docs, corpus.Gen(f, root.Derive("c20-"+f, i), i))
 		}
 	}
+	// structurally rich documents (STYLE blocks, regions, unknown sections)
+	for _, f := range []string{"srt", "vtt", "ssa"} {
+		b, _ := corpus.LongLineBase(f)
+		p.docs = append(p.docs, corpus.Doc{Name: "rich-" + f, Format: f, Data: b})
+	}
 	// invalid documents (error paths run concurrently too): seeded mutations of small generated documents
 	mr := root.Derive("c20-invalid", 0)
 	for _, f := range []string{"srt", "vtt", "ssa", "ttml", "stl"} {
@@ -839,6 +844,9 @@ func genTask(r *prng.R, pool *docPool, idx int, theme string) TaskProg {
 		t.Plan.Medium = r.Pick("plain", "seekable", "bufio")
 	}
 	t.Ops = genOps(r)
+	if theme != "" && r.Bool(0.4) { // themed scenarios: lists of one format are merged into each other more often
+		t.Ops = append([]api.Op{{Name: "merge"}}, t.Ops...)
+	}
 	for _, op := range t.Ops {
 		if op.Name == "merge" && t.MergeDoc == nil {
 			m := pool.docs[r.Intn(len(pool.docs))]
